@@ -214,7 +214,8 @@ func (s *sim) do(m int, in In) {
 			}
 		}
 	}
-	if commit {
+	if commit && len(s.w.Viols) == 0 && len(s.sc.Events) < 20000 {
+		// (a violation ends the scenario; the cap stops a machine that commits on every start)
 		s.do(m, In{Kind: "start", R: 0})
 	}
 }
